@@ -34,6 +34,13 @@ pub struct Job {
     pub want_scenario: bool,
     /// pin to this cpu (workers only)
     pub cpu: Option<usize>,
+    /// evaluate this property's oracle instead of `prop`'s (the scenario still comes from
+    /// `prop`'s generator)
+    #[serde(default)]
+    pub oracle: Option<String>,
+    /// run exactly this scenario (witness scenarios of known findings) instead of generating one
+    #[serde(default)]
+    pub scenario: Option<Scenario>,
 }
 
 #[derive(Clone, Debug, Serialize, Deserialize, Default)]
@@ -91,7 +98,10 @@ pub fn execute(job: &Job) -> Report {
             Tape::generate(mix(base, 3)),
         ),
     };
-    let sc = families::generate(&job.prop, job.run, &mut wt);
+    let sc = match &job.scenario {
+        Some(sc) => sc.clone(),
+        None => families::generate(&job.prop, job.run, &mut wt),
+    };
     let wtape = wt.consumed();
     let workload_hash = fnv_bytes(&serde_json::to_vec(&sc).unwrap());
     let rr = run::run_scenario(&sc, st, ft);
@@ -107,7 +117,7 @@ pub fn execute(job: &Job) -> Report {
             rr.outcome.deadlock_report()
         ));
     } else {
-        rep.violations = oracle::check(&job.prop, &sc, &rr);
+        rep.violations = oracle::check(job.oracle.as_deref().unwrap_or(&job.prop), &sc, &rr);
     }
     let f = oracle::facts(&sc, &rr);
     rep.nontrivial = f.nontrivial && families::nontrivial(&job.prop, &sc, &rr);
